@@ -242,6 +242,14 @@ class RandInfoBuilder(ModelVisitor,RandIF):
     def visit_constraint_dist_scope(self, s : ConstraintDistScopeModel):
         super().visit_constraint_dist_scope(s)
         
+        # A dist nested under if/else or implies only applies when
+        # the enclosing conditions hold. Record them for the swizzler
+        s.guard = None
+        if self._pass == 1 and len(self._soft_cond_l) > 0:
+            s.guard = self._soft_cond_l[0]
+            for cond in self._soft_cond_l[1:]:
+                s.guard = ExprBinModel(s.guard, BinExprType.And, cond)
+        
         # Save information on dist constraints to the 
         # appropriate randset
         if self._active_randset is not None:
